@@ -3,7 +3,7 @@
    buffered candidate).  `G a b g`: the next event (a yield or the end of the stream) arrives within `a` steps and,
    after every yield, the following one within `b` steps, for EVERY oracle of random draws. *)
 From Coq Require Import QArith ZArith Bool List.
-From PP Require Import Prelude.Base Prelude.Val Prelude.Pred Prelude.Sem Lemmas.GenDSL Lemmas.GenYield Lemmas.GenModel Lemmas.GenProd Lemmas.GenSat.
+From PP Require Import Prelude.Base Prelude.Val Prelude.Pred Prelude.Sem Lemmas.GenDSL Lemmas.GenYield Lemmas.GenModel Lemmas.GenProd Lemmas.GenSat Lemmas.GenTupleOf.
 Import ListNotations.
 Close Scope Q_scope.
 
@@ -64,6 +64,15 @@ Theorem C11_satisfiability_conditions_nonvacuous :
   sat_true KInt (PIsInstance [9]) = true /\ sat_true KInt (PIn []) = false /\ sat_false KInt PTrue = false.
 Proof. exact sat_examples. Qed.
 Print Assumptions C11_satisfiability_conditions_nonvacuous.
+
+(* is_tuple_of_p(p1, ..., pn), n >= 1, components of kinds without rejection sampling: at every position of the stream of
+   tuples the next tuple (or the end of the stream: zip ends with its shortest component) arrives within
+   Btuple ps = n * (10 + sum of the components' bounds) + 3 steps, for every oracle *)
+Theorem C11_tuple_of_next_always_completes :
+  forall fe W ck ps, ps <> [] -> Forall (fun p => prod_true ck p = true) ps ->
+  forall n o c, exists r, nth_next n (Btuple ps) (gen_tuple_of fe W ck ps) o c = Some r.
+Proof. exact gen_tuple_of_next_always_completes. Qed.
+Print Assumptions C11_tuple_of_next_always_completes.
 
 (* PARTIAL (named): the kinds that go through a filter (not_in_p, is_not_none_p, str/UUID bounds, &, set-of;
    generate_false of eq/in/none/falsy/type tests/|) are rejection sampling: no bound holds for every oracle (known
